@@ -22,7 +22,8 @@ RULE = ("random histories (quick <= 8 ops, thorough <= 20) over {create v1/v2/hy
 
 def gen_history(rng, length):
     pl = 16384
-    files = {"a": "r1.20000", "d/b": "r2.16384", "d/c": "r3.5"}
+    auto = rng.random() < 0.4         # creates without a piece length (automatic choice)
+    files = {"a": "r1.90000", "d/b": "r2.16384", "d/c": "r3.5"}
     hist = [{"op": "fs", "kind": "add", "rel": "p/" + r, "data": t} for r, t in files.items()]
     present = {"p/" + r for r in files}
     metas = []
@@ -32,14 +33,21 @@ def gen_history(rng, length):
         r = rng.random()
         if r < 0.3 or not metas:
             kind = rng.choice(["v1", "a2", "a3", "v2", "hy"])
-            op = {"op": "create", "kind": kind, "path": "p", "out": f"m{counter}.torrent", "pl": pl}
+            op = {"op": "create", "kind": kind, "path": "p", "out": f"m{counter}.torrent",
+                  "pl": None if auto else rng.choice([16384, 16384, 32768, 65536])}
             if kind in ("v1", "a2", "a3") and rng.random() < 0.4:
                 op["cli"] = True
                 op["flags"] = rng.choice([[], ["-q"], ["-v"]])
             metas.append(op["out"])
             hist.append(op)
         elif r < 0.6:
-            k = rng.choice(["add", "delete", "grow", "shrink", "rewrite"])
+            k = rng.choice(["add", "delete", "grow", "shrink", "rewrite"] + (["resize"] * 3 if auto else []))
+            if k == "resize":
+                # sparse file crossing the automatic piece-length thresholds (1000 * 2^k)
+                hist.append({"op": "fs", "kind": "resize", "rel": "p/big",
+                             "size": rng.choice([0, 16_384_001 - 106_389, 16_400_000, 33_000_000, 5])})
+                present.add("p/big")
+                continue
             if k == "add":
                 rel = "p/" + rng.choice(["n", "d/n", "e/f", "z"]) + str(counter)
                 hist.append({"op": "fs", "kind": "add", "rel": rel,
@@ -125,7 +133,7 @@ def run(tier, seed, replay=None):
     run = Run("C09", tier, seed, RULE)
     length = 8 if tier == "quick" else 20
     seeds = [replay["case"]["seed"]] if replay else \
-        [run.rng.randrange(10 ** 9) for _ in range(24 if tier == "quick" else 160)]
+        [run.rng.randrange(10 ** 9) for _ in range(40 if tier == "quick" else 240)]
     if replay:
         length = replay["case"].get("length", length)
     # several histories per worker process, so that process state accumulates across them
